@@ -14,9 +14,9 @@ LEVEL_TEXT = ('For the heap balancer the invariant HeapMem -- every node in the 
               'and _OpenImpl sets it only after every initially listed member is installed.')
 LEVEL_NOTE = ('Both balancers: the heap-balancer units, and the same handlers verified with self typed as the aperture balancer (active + idle halves; units *@ap and ApertureBalancerSink._AddSink/_RemoveSink/_TryExpandAperture/_ContractAperture, shared with C06). Per-call and per-notification statement; "any history" follows by induction over notifications because '
               'each handler is verified from the invariant to the invariant. Not machine-checked as one obligation: that dispatch-path functions run concurrently with a loading _OpenImpl never change the size '
-              '(LoadBalancerSink.AsyncProcessRequest defers dispatch until the open result is ready: C12 unit). Trusted: _OpenInitialChannels (starts the opens through a list comprehension of _OpenNode calls; _OpenNode itself is verified), '
+              '(LoadBalancerSink.AsyncProcessRequest defers dispatch until the open result is ready: C12 unit). _OpenInitialChannels and _OpenNode are verified (they start opens and touch no membership state), '
               'the server-set provider delivers notifications serially, properties dict copy/update dropped.')
 ASSUMPTIONS = ['notifications are delivered serially by the server-set provider', 'no request is dispatched while the initial list is loading (C12: deferred until the open result is ready)',
                'member endpoints are not None']
-TRUSTED = ['HeapBalancerSink._OpenInitialChannels']
+TRUSTED = []
 BOUNDED = []
